@@ -422,6 +422,14 @@ class G:
             shape = tuple(shape[0])
         return g_reshape(self, shape)
 
+    def swapaxes(self, a, b):
+        return NPG.swapaxes(self, a, b)
+
+    def flatten(self):
+        if self.bax == 0 and all(d == 1 for d in self.tshape):
+            return G([b.reshape(()) for b in self.blocks], 0, self.tag, self.layout)
+        raise Unsupported("flatten of a non-trivial trailing shape")
+
     # ---- iteration over a leading non-batch axis (x, y, z = observers.T)
     def __iter__(self):
         if self.bax == 0:
@@ -714,6 +722,10 @@ def g_reshape(g, shape):
             return G([np.stack(g.blocks)], 0, g.tag, "stack")
         if isinstance(shape[0], SymInt) and len(g.blocks) == 1 and g.bax == 0 and tuple(shape[1:]) == g.tshape:
             return g
+        # (n, 3) -> (n, 3, 1): same batch axis, trailing shape regrouped
+        if isinstance(shape[0], SymInt) and g.bax == 0 and not any(isinstance(s_, SymInt) for s_ in shape[1:]) \
+                and int(np.prod(shape[1:])) == int(np.prod(g.tshape)):
+            return G([b.reshape(tuple(shape[1:])) for b in g.blocks], 0, g.tag, g.layout)
         raise Unsupported(f"reshape{shape}")
     if shape[0] == -1 and g.bax == 0:
         rest = shape[1:]
@@ -781,6 +793,13 @@ class NPG:
             for idx in (np.ndindex(*shape[1:]) if shape[1:] else [()]):
                 a[idx] = z3.Real(f"uninit{NPG._uninit[0]}" + "".join("_%d" % i for i in idx))
             return G([a], 0, rows_tag(shape[0]))
+        if len(shape) == 2 and isinstance(shape[1], SymInt) and isinstance(shape[0], int):
+            # (k, n): k uninitialised batch vectors (unpacked as `a, b, c = np.empty((3, n))`)
+            NPG._uninit[0] += 1
+            a = np.empty((shape[0],), dtype=object)
+            for i in range(shape[0]):
+                a[i] = z3.Real(f"uninit{NPG._uninit[0]}_{i}")
+            return G([a], 1, rows_tag(shape[1]))
         return np.empty(shape, dtype=dtype)
 
     @staticmethod
@@ -812,6 +831,24 @@ class NPG:
         if not isinstance(x, G):
             return np.transpose(x, axes)
         return g_transpose(x, list(axes) if axes is not None else list(range(x.ndim))[::-1])
+
+    @staticmethod
+    def matmul(a, b):
+        """(n, p, q) @ (n, q, r) on the generic row"""
+        if not (isinstance(a, G) and isinstance(b, G)) or a.bax != 0 or b.bax != 0 or len(a.tshape) != 2 or len(b.tshape) != 2 or a.tshape[1] != b.tshape[0] \
+                or len(a.blocks) != 1 or len(b.blocks) != 1:
+            raise Unsupported("matmul pattern")
+        A, B = a.blocks[0], b.blocks[0]
+        out = np.empty((a.tshape[0], b.tshape[1]), dtype=object)
+        for i in range(a.tshape[0]):
+            for j in range(b.tshape[1]):
+                t = None
+                for k in range(a.tshape[1]):
+                    u = asreal(A[i, k]) * asreal(B[k, j])
+                    t = u if t is None else t + u
+                out[i, j] = t
+        tag = a.tag if a.tag is not None else b.tag
+        return G([out], 0, tag, a.layout)
 
     @staticmethod
     def vstack(parts):
@@ -1055,6 +1092,24 @@ class NPG:
                 sq = (x * x).sum(axis=axis)
                 return NPG.sqrt(sq)
             raise Unsupported("linalg.norm")
+
+        @staticmethod
+        def inv(x):
+            """inverse of the trailing (3,3) matrices of a batch: adjugate / determinant (rational terms per row)"""
+            if not isinstance(x, G) or x.bax != 0 or x.tshape != (3, 3):
+                raise Unsupported("linalg.inv of this shape")
+
+            def iv(b):
+                m = [[asreal(b[i, j]) for j in range(3)] for i in range(3)]
+                cof = lambda i, j: m[(i + 1) % 3][(j + 1) % 3] * m[(i + 2) % 3][(j + 2) % 3] - m[(i + 1) % 3][(j + 2) % 3] * m[(i + 2) % 3][(j + 1) % 3]
+                det = m[0][0] * cof(0, 0) + m[0][1] * cof(0, 1) + m[0][2] * cof(0, 2)
+                out = np.empty((3, 3), dtype=object)
+                for i in range(3):
+                    for j in range(3):
+                        out[i, j] = cof(j, i) / det  # adjugate = transposed cofactor matrix (cyclic cofactors carry their sign)
+                return out
+
+            return G([iv(b) for b in x.blocks], 0, x.tag, x.layout)
 
         @staticmethod
         def det(x):
